@@ -110,6 +110,8 @@ def gen_scenario(rng, cfg):
                 text = "D%d=same" % rng.below(3)      # the same line submitted again later (not immediately)
             if kind == "space" and rng.chance(40):
                 text = "B%d=!!" % k     # refers to the previous command; still must not be recorded
+            elif kind == "space" and rng.chance(30):
+                text = "source ../setvar.sh"     # runs other lines inside the shell; still must not be recorded
             ops.append({"op": "type", "shell": sh, "text": text, "kind": kind})
         elif r < 50:
             t = gen_text(rng)
@@ -120,6 +122,8 @@ def gen_scenario(rng, cfg):
             ts = None
             if rng.chance(45):
                 ts = rng.choice([0.0, 5.0, 5.0, 1000.5, 1699999999.0, 1700000500.25])
+                if rng.chance(8):
+                    ts = rng.choice([1700000000000.0, 4.0e17])     # milliseconds / nonsense given for seconds
             ops.append({"op": "hadd", "shell": sh, "text": t, "ts": ts, "via": rng.choice(["shell", "shell", "oneshot"])})
         elif r < 58:
             ops.append({"op": "hdel", "shell": sh, "pick": [rng.below(50) for _ in range(1 + rng.below(2))]})
@@ -128,7 +132,8 @@ def gen_scenario(rng, cfg):
             if rng.chance(45):
                 pat = rng.choice(["H", "%", "_", "a", "ü", ")", "1", "x%y", "'", "a'b"] if cfg.get("hostile_patterns", True)
                                  else ["H", "a", "1", "x%y"])
-            ops.append({"op": "list", "asc": rng.chance(50), "pattern": pat, "limit": rng.choice([1000, 1000, 3])})
+            ops.append({"op": "list", "asc": rng.chance(50), "pattern": pat, "limit": rng.choice([1000, 1000, 3]),
+                        "dates": rng.chance(25)})
         elif r < 82:
             d = rng.choice(DIRS if cfg.get("hostile_dirs", True) else DIRS[:1])
             ops.append({"op": "cd", "shell": sh, "dir": d})
@@ -202,6 +207,8 @@ class C18Runner:
         os.makedirs(self.dirs)
         for d in DIRS:
             os.makedirs(os.path.join(self.dirs, d), exist_ok=True)
+        with open(os.path.join(self.dirs, "setvar.sh"), "w") as f:
+            f.write("SV=1\nSW=2\n")
         self.shells = []
         self.rows = []            # model: dicts {text, tsb, seq, rowid}
         self.seq = 0
@@ -642,13 +649,25 @@ class C18Runner:
             if pat and q is None:
                 return
             cmd = "history -n -l %d %s%s" % (op["limit"], "-a " if op["asc"] else "", q)
+            if op.get("dates"):
+                cmd = "history -d -l %d %s%s" % (op["limit"], "-a " if op["asc"] else "", q)
             self.ev("list", cmd)
             rc, out, err = self.run_oneshot(cmd.strip())
-            if "error" in (out + err).lower():
+            if "error" in (out + err).lower() or "panicked" in err:
                 raise Violation("listing_failed", "`%s` in a fresh process printed %r" % (cmd, (out + err).strip()[:160]))
             got = [l for l in out.split("\n")]
             if got and got[-1] == "":
                 got.pop()
+            if op.get("dates"):
+                # "rowid: date: text" -- only the texts and their order are judged
+                parsed = []
+                for l in got:
+                    parts = l.split(": ", 2)
+                    if len(parts) != 3 or not parts[0].isdigit():
+                        raise Violation("listing_failed", "`%s` printed a line that is not `id: date: text`: %r" % (cmd, l[:80]))
+                    parsed.append(parts[2])
+                got = parsed
+                self.sim.probe("listing_with_dates_checked")
             want = self.expected_listing(op["asc"], pat, op["limit"])
             if not op["asc"] and False:
                 pass
@@ -821,7 +840,7 @@ def make_case(seed, index):
         sc["real_clock_tz"] = True
         sc["ops"] = [o for o in sc["ops"] if o["op"] not in ("clock", "overlap")]
         for o in sc["ops"]:
-            if o["op"] == "hadd" and o.get("ts") == 1700000500.25:
+            if o["op"] == "hadd" and (o.get("ts") or 0) >= 1700000500.25:
                 o["ts"] = 1000.5
     sc["adversarial_picks"] = 0
     return sc, rng
